@@ -332,11 +332,6 @@ fn collect_fields<'a>(
                     {
                         collect_service_field(fields, ctx, field);
                         continue;
-                    } else if ctx.schema_env.registry.enable_federation
-                        && field.node.name.node == "_entities"
-                    {
-                        collect_entities_field(fields, schema, ctx, parent_value, field);
-                        continue;
                     }
                 }
 
@@ -348,6 +343,16 @@ fn collect_fields<'a>(
                         async move { Ok((field.node.response_key().node.clone(), Value::Null)) }
                             .boxed(),
                     );
+                    continue;
+                }
+
+                // entity resolution is not schema metadata: like the static `QueryRoot` it is
+                // independent of the introspection gate but cut off in introspection-only mode
+                if object.name == schema.0.env.registry.query_type
+                    && ctx.schema_env.registry.enable_federation
+                    && field.node.name.node == "_entities"
+                {
+                    collect_entities_field(fields, schema, ctx, parent_value, field);
                     continue;
                 }
 
